@@ -46,6 +46,13 @@ def lock_programs():
             out.append((wrap(w, dd),) + (('T',),))                 # around
             out.append(dd + (wrap(w, ()),) + (('T',),))            # after
             out.append(dd + (wrap(w, (('T',),)),))                 # the final push itself inside the construct
+    # the lock's own explicit return, at top level and inside every construct
+    out.append((('T',), ('RETURN',), ('FAIL',)))
+    out.append((('RETURN',), ('T',)))
+    for w in WRAPS:
+        out.append((wrap(w, (('T',), ('RETURN',))), ('FAIL',)))
+        out.append((wrap(w, (('RETURN',),)), ('T',)))
+        out.append((('T',), wrap(w, (wrap('IFT', (('RETURN',),)),)), ('DROP',), ('FAIL',)))
     out.append((('T',),))
     out.append((('VERIFYW',), ('T',)))
     # locks that rely on state the documentation says is carried over: functions defined and cache
